@@ -77,8 +77,12 @@ Accepted subset, common part (anything else raises TranslateError, file:line):
          (EditRules.int_of; ValueError becomes the result `Raise`, accepted in
          `x += int(..)` / `x = int(..)` only); ''.join(l); + on strings and on
          ints; ==, != between strings; `in` / `not in` with a list of strings;
-         config.get('key') / config['key'] for the keys of the model's config
-         record; calls of the translated functions.  Of edit_rules only the
+         config.get('key') for the keys of the model's config record
+         (min_length, max_length: ints; terminal_set: a list of strings or False,
+         SmallRt.cfg_list; regex: a list of strings, absent = empty); calls of the
+         translated functions (`grammar = edit_length(..)`: its `Raise` is passed
+         on).  A variable may be rebound with another type (line =
+         re.findall(.., line)) unless a loop or a conditional carries it.  Of edit_rules only the
          statements from the first to the last `if config.get(...): grammar =
          f(grammar, ...)` are translated (the filter passes); the statements
          before (copy, open/read) and after (write back) are file I/O, which the
@@ -783,6 +787,9 @@ class Tr:
                 self.fail(s, "the loop variable %r is assigned in the loop or bound outside" % n)
             if n in env.carried:
                 self.fail(s, "the loop variable %r is carried by an enclosing loop" % n)
+            if n in env.types:
+                # Python would leave the last item in it after the loop; the translation would not
+                self.fail(s, "the loop variable %r is already bound" % n)
             inner.types[n] = ty
             inner.fresh.discard(n)
         if len({n for n, _ in binders}) != len(binders):
@@ -1392,6 +1399,161 @@ def render_edit(repo=None):
     return EDIT_HEAD % rel + "\n".join(parts) + "\nEnd Edit.\n"
 
 
+# ====================================================================== probs
+NUMS = "nums"
+
+
+class ProbsTr(Tr):
+    KERNEL = "probs"
+    COQ_TYPE = dict(Tr.COQ_TYPE, **{NUM: "num O", KEY: "str", PAIR: "(str * num O)", CNT: "Counters.counter O",
+                                    NUMS: "list (num O)"})
+    RESERVED = RESERVED_COMMON | set("""O num nzero none nadd nsub ndiv nltb neqb nofN nmul numops str most_common total
+        calc_probs Counters""".split())
+
+    def check_name(self, node, name):
+        # the parameter `counter` shadows the model's type name inside the definition (written Counters.counter there)
+        if name == "counter":
+            return
+        Tr.check_name(self, node, name)
+
+    def elem_type(self, node, ty):
+        if ty == CNT:
+            return PAIR
+        self.fail(node, "iteration / item access on a %s" % ty)
+
+    def undef_of(self, node, ty):
+        if ty == PAIR:
+            return "undef_pair"
+        self.fail(node, "no undefined value of type %s" % ty)
+
+    def is_fresh_value(self, v):
+        return self.method_call(v, "most_common") is not None
+
+    @staticmethod
+    def method_call(e, name):
+        if isinstance(e, ast.Call) and isinstance(e.func, ast.Attribute) and e.func.attr == name \
+                and not e.args and not e.keywords:
+            return e.func.value
+        return None
+
+    def number(self, node, text, ty, other):
+        """an operand of / or *: a number, or the int constant 0 / 1 next to a number"""
+        if ty == NUM:
+            return text
+        if ty == NAT and other == NUM and text in ("0", "1"):
+            return "nzero O" if text == "0" else "none O"
+        self.fail(node, "arithmetic on a %s" % ty)
+
+    def expr(self, e, env):
+        if isinstance(e, ast.Call):
+            f = e.func
+            recv = self.method_call(e, "values")
+            if recv is not None:
+                v, tv = self.expr(recv, env)
+                if tv != CNT:
+                    self.fail(e, "values() of a %s" % tv)
+                return "py_values %s" % _paren(v), NUMS
+            recv = self.method_call(e, "most_common")
+            if recv is not None:
+                v, tv = self.expr(recv, env)
+                if tv != CNT:
+                    self.fail(e, "most_common() of a %s" % tv)
+                return "most_common %s" % _paren(v), CNT
+            if isinstance(f, ast.Name) and f.id == "sum" and len(e.args) == 1 and not e.keywords:
+                v, tv = self.expr(e.args[0], env)
+                if tv != NUMS:
+                    self.fail(e, "sum of a %s" % tv)
+                return "py_sum %s" % _paren(v), NUM
+            self.fail(e, "unsupported call")
+        if isinstance(e, ast.Tuple):
+            if len(e.elts) != 2:
+                self.fail(e, "only pairs (value, number) are supported")
+            a, ta = self.expr(e.elts[0], env)
+            b, tb = self.expr(e.elts[1], env)
+            if (ta, tb) != (KEY, NUM):
+                self.fail(e, "a pair of %s and %s" % (ta, tb))
+            return "(%s, %s)" % (a, b), PAIR
+        if isinstance(e, ast.Subscript):
+            if not isinstance(e.ctx, ast.Load):
+                self.fail(e, "unsupported use of a subscript")
+            v, tv = self.expr(e.value, env)
+            if tv == PAIR and isinstance(e.slice, ast.Constant) and type(e.slice.value) is int and e.slice.value in (0, 1):
+                return ("fst %s" % _paren(v), KEY) if e.slice.value == 0 else ("snd %s" % _paren(v), NUM)
+            self.fail(e, "unsupported subscript of a %s" % tv)
+        return self.common_expr(e, env)
+
+    def arith(self, e, a, ta, b, tb):
+        if isinstance(e.op, (ast.Div, ast.Mult)) and NUM in (ta, tb):
+            x, y = self.number(e, a, ta, tb), self.number(e, b, tb, ta)
+            if isinstance(e.op, ast.Div):
+                return "ndiv O %s %s" % (_paren(x), _paren(y)), NUM
+            return "nmul %s %s" % (_paren(x), _paren(y)), NUM
+        self.fail(e, "unsupported arithmetic on %s and %s" % (ta, tb))
+
+    def add_op(self, node, a, ta, b, tb):
+        if NUM in (ta, tb):
+            return "nadd O %s %s" % (_paren(self.number(node, a, ta, tb)), _paren(self.number(node, b, tb, ta))), NUM
+        return Tr.add_op(self, node, a, ta, b, tb)
+
+    def effect_special(self, s, env, ind):
+        c = s.value
+        if isinstance(c, ast.Call) and isinstance(c.func, ast.Name) and c.func.id in self.done and not c.keywords:
+            spec = self.done[c.func.id]
+            if spec["ret"] != UNIT or len(c.args) != len(spec["params"]):
+                self.fail(s, "unsupported call statement")
+            args = []
+            for a, (n, ty) in zip(c.args, spec["params"]):
+                t, ta = self.expr(a, env)
+                if ta != ty:
+                    self.fail(a, "argument %r has type %s, expected %s" % (n, ta, ty))
+                args.append(_paren(t))
+            # the callee has been translated: it returns None and (mutation of a parameter being outside the
+            # subset) changes nothing
+            return self.line(ind, "let _ := %s %s in" % (spec["coq"], " ".join(args)), s)
+        return None
+
+
+PROBS_HEAD = """(* GENERATED by harness/translate_small.py from the Python source of the current
+   working tree (%s) on every run of a check.  Do not edit.
+   Each definition is the line-by-line image of one Python function in the subset
+   documented in the translator; the numbers in the comments are source lines.
+   theories/SmallGenProofsProbs.v proves py_calculate_probabilities equal to
+   Counters.calc_probs for every number structure (Q and binary64 included). *)
+From Coq Require Import List Arith Bool.
+From Pcfg Require Import KernelRt SmallRt Counters.
+Import ListNotations.
+
+Section Probs.
+Context {O : numops}.
+(* Python's * on numbers (the model has no multiplication: a source that multiplies is not the model) *)
+Context (nmul : num O -> num O -> num O).
+(* the value of a subscript that raises in Python *)
+Context (undef_pair : TextFile.str * num O).
+
+"""
+
+PROBS_SPECS = [
+    dict(py="apply_probability_smoothing", coq="py_apply_probability_smoothing", params=[("counter", CNT)], ret=UNIT,
+         note="returns None"),
+    dict(py="calculate_probabilities", coq="py_calculate_probabilities", params=[("counter", CNT)], ret=CNT),
+]
+
+
+def render_probs(repo=None):
+    rel = "lib_trainer/calculate_probabilities.py"
+    path, tree = parse(repo, rel)
+    defs = defs_of(path, tree.body)
+    check_not_rebound(path, tree, {s["py"] for s in PROBS_SPECS} | BUILTINS_USED)
+    parts, done = [], {}
+    for spec in PROBS_SPECS:
+        fn = defs.get(spec["py"])
+        if fn is None:
+            raise TranslateError("%s: %s not found" % (path, spec["py"]))
+        parts.append(ProbsTr(path, rel, "", fn, spec, done).translate())
+        done[spec["py"]] = spec
+    return PROBS_HEAD % rel + "\n".join(parts) + "\nEnd Probs.\n"
+
+
 # ====================================================================== shared file handling
 def parse(repo, rel):
     repo = repo or common.REPO
@@ -1465,6 +1627,7 @@ def check_module_name(path, tree, mod):
 KERNELS = {}     # name -> (render function, output file)
 KERNELS["walk"] = (render_walk, os.path.join("gen", "Small_walk_gen.v"))
 KERNELS["edit"] = (render_edit, os.path.join("gen", "Small_edit_gen.v"))
+KERNELS["probs"] = (render_probs, os.path.join("gen", "Small_probs_gen.v"))
 
 
 def failure_text(name, err):
